@@ -1,3 +1,4 @@
+/* hdr-rev 8e66856859bc (hash of harness/C11/*.h; keeps the driver's compile cache in step with the headers) */
 #define FUNC beltCFBDecr
 #define FNAME "beltCFBDecr"
 #include "cipher6.h"
